@@ -423,7 +423,9 @@ func settle(vnow int64, s *vsession, G int64) int64 {
 	for k := 0; k < 6; k++ {
 		bad := false
 		chk := func(d int64) {
-			if d != zeroT && d-vnow < 30*sec && vnow-d < 30*sec {
+			// a deadline in the near FUTURE could be overtaken by the wall clock while the request runs; one that is a few
+			// seconds in the PAST only gets older, so probing just after a deadline is deterministic
+			if d != zeroT && d-vnow < 30*sec && vnow-d < 4*sec {
 				bad = true
 			}
 		}
@@ -447,7 +449,7 @@ var emails = []string{"a@example.com", "b@other.com", "Bob@Example.COM", "bob@b.
 func genSession(r *c.Rng, w *world, vnow int64) *vsession {
 	off := func(opts ...int64) int64 { return vnow + opts[r.Intn(len(opts))]*sec }
 	s := &vsession{Slug: "google", Email: emails[r.Intn(len(emails))], User: "u", Access: "at", RefreshTok: "rt",
-		RefreshDL: off(-600, 600, 600, 3600), LifetimeDL: off(-3600, 3600, 86400, 86400, 86400), ValidDL: off(-120, 120, 120),
+		RefreshDL: off(-600, -9, -25, 600, 600, 3600), LifetimeDL: off(-3600, -7, 3600, 86400, 86400, 86400), ValidDL: off(-120, -6, -20, 120, 120),
 		Groups: []string{}, Upstream: host}
 	if r.Chance(0.12) {
 		s.Slug = []string{"okta", "", "GOOGLE", "google "}[r.Intn(4)]
@@ -799,6 +801,14 @@ func history(r *c.Rng, auth *c.FakeAuth, worlds []*world, linear bool, maxLen in
 		if pres != nil {
 			rq.CookieKind = "sealed"
 			rq.Sess = pres
+			if r.Chance(0.15) { // just after one of this cookie's deadlines
+				d := []int64{pres.RefreshDL, pres.ValidDL, pres.LifetimeDL}[r.Intn(3)]
+				if d != zeroT && d < vnow+7200*sec {
+					if t := d + int64(5+r.Intn(22))*sec; t > vnow {
+						vnow = t // time only moves forward
+					}
+				}
+			}
 			vnow = settle(vnow, pres, w.G)
 		}
 		pOK := 0.6
@@ -908,6 +918,7 @@ func main() {
 			worlds = append(worlds, newWorld(auth, dir, p, 86400, 600, G))
 		}
 	}
+	worlds = append(worlds, newWorld(auth, dir, pols[1], 86400, 0, 0), newWorld(auth, dir, pols[5], 86400, 0, 3600))
 	mode := a.Mode
 	if mode == "" {
 		mode = "single"
